@@ -597,6 +597,7 @@ func c11K4(c *rt.Ctx) {
 				// --- per-peer dedup
 				dk := cons + ": per-peer dedup"
 				good, why := false, "no per-peer dedup set is consulted for the sender before the send"
+				compositeSet := false
 				for li, e := range q.p.Evs[:sd.at] {
 					if e.Kind != "lookup" {
 						continue
@@ -606,7 +607,30 @@ func c11K4(c *rt.Ctx) {
 						continue
 					}
 					mt, isMap := lk.X.Type().Underlying().(*types.Map)
-					if !isMap || an.TypeName(mt.Key()) != c11PeerID || !isPid(q.tm(e.Args[1])) {
+					if !isMap {
+						continue
+					}
+					// the set is keyed by the sender, or by a record that holds the sender (e.g. {message id, peer})
+					keyTerm := q.tm(e.Args[1])
+					composite := false
+					if an.TypeName(mt.Key()) != c11PeerID {
+						kst, isSt := mt.Key().Underlying().(*types.Struct)
+						if !isSt {
+							continue
+						}
+						for fi := 0; fi < kst.NumFields(); fi++ {
+							if an.TypeName(kst.Field(fi).Type()) == c11PeerID {
+								composite = true
+							}
+						}
+						if !composite {
+							continue
+						}
+						if !c11TermHas(keyTerm, isPid) {
+							compositeSet = true
+							continue
+						}
+					} else if !isPid(keyTerm) {
 						continue
 					}
 					if st, isStruct := mt.Elem().Underlying().(*types.Struct); !(isStruct && st.NumFields() == 0) && !types.Identical(mt.Elem().Underlying(), types.Typ[types.Bool]) {
@@ -641,7 +665,10 @@ func c11K4(c *rt.Ctx) {
 						if u.Kind != "mapupdate" || ui < li {
 							continue
 						}
-						if !c11Same(q.tm(u.Args[0]), set) || !isPid(q.tm(u.Args[1])) {
+						if !c11Same(q.tm(u.Args[0]), set) {
+							continue
+						}
+						if uk := q.tm(u.Args[1]); !isPid(uk) && !(composite && (c11Same(uk, keyTerm) || c11TermHas(uk, isPid))) {
 							continue
 						}
 						if onValue {
@@ -660,6 +687,8 @@ func c11K4(c *rt.Ctx) {
 				}
 				if !good && unresolvedLocalCall(q.p.Evs, 0) {
 					agg.unsure(dk, pos, why+" (a call through an unresolved function value is on the path)")
+				} else if !good && compositeSet {
+					agg.unsure(dk, pos, why+" (a set keyed by a record with a peer.ID field is consulted; the rule cannot tell whether the record holds the sender)")
 				} else {
 					agg.check(dk, pos, good, why)
 				}
@@ -851,4 +880,20 @@ func c11K4ThresholdProv(c *rt.Ctx, terms []*c11X, nCommitSends int) {
 			c.Unsure(cons, pos, "cannot follow the provenance of the value the commitment count is compared with: "+why)
 		}
 	}
+}
+
+// c11TermHas: some sub-term of x satisfies pred.
+func c11TermHas(x *c11X, pred func(*c11X) bool) bool {
+	if x == nil {
+		return false
+	}
+	if pred(x) {
+		return true
+	}
+	for _, a := range x.Args {
+		if c11TermHas(a, pred) {
+			return true
+		}
+	}
+	return false
 }
